@@ -128,7 +128,10 @@ class state_machine_base : public FrontEnd
             // If not, this state is simply a terminate state.
             if (m_forward_fn)
             {
-                m_forward_fn(root_sm, &forward_event);
+                // Convert before the type is erased,
+                // the handler expects a pointer to an 'event'.
+                const event& converted_event = forward_event;
+                m_forward_fn(root_sm, &converted_event);
             }
         }
 
